@@ -1,7 +1,232 @@
 /-
   Helper lemmas for the file-level crash model (C04).
+
+  * `runUntil_fst`: the file left behind by a writer dying at event `k` is `effectBefore` folded over
+    the first `k+1` events of the script;
+  * `script_usable` / `script_unusable`: the script as a concrete list;
+  * `runUntil_usable_cases`: the five possible files left behind over a usable segment;
+  * `runAll_usable` / `runAll_unusable`: the file after a complete start-up + first publication;
+  * `runUntil_unusable_prefix`: the file left behind while an unusable file is being re-created;
+  * generation arithmetic and `ReaderA.snap` facts.
 -/
 import ClockBound.Model.Crash
 namespace ClockBound.Crash
+open ClockBound
+
+/-! ### `runUntil` as a fold over a prefix of the script -/
+
+theorem go_fst (rec : List Nat) (k : Nat) : ∀ (evs : List Ev) (f : FileA) (i : Nat), i ≤ k →
+    (runUntil.go rec k f i evs).1 = (evs.take (k + 1 - i)).foldl (effectBefore rec) f
+  | [], f, i, _ => by simp [runUntil.go]
+  | e :: rest, f, i, h => by
+    unfold runUntil.go
+    by_cases hik : i = k
+    · subst hik
+      have : i + 1 - i = 1 := by omega
+      simp [this]
+    · have h1 : k + 1 - i = (k + 1 - (i + 1)) + 1 := by omega
+      simp only [hik, if_false]
+      rw [go_fst rec k rest _ (i + 1) (by omega), h1, List.take_succ_cons, List.foldl_cons]
+
+theorem runUntil_fst (f : FileA) (rec : List Nat) (k : Nat) :
+    (runUntil f rec k).1 = ((script f).take (k + 1)).foldl (effectBefore rec) f := by
+  unfold runUntil
+  exact go_fst rec k (script f) f 0 (Nat.zero_le _)
+
+theorem foldl_hdrLoad (rec : List Nat) (f : FileA) : ∀ n : Nat,
+    (List.replicate n Ev.hdrLoad).foldl (effectBefore rec) f = f
+  | 0 => rfl
+  | n + 1 => by rw [List.replicate_succ, List.foldl_cons]; exact foldl_hdrLoad rec f n
+
+/-! ### the script as a concrete list -/
+
+theorem usable_iff (f : FileA) : f.usable = true ↔
+    f.present = true ∧ 16 ≤ f.len ∧ f.magic0 = true ∧ f.magic1 = true ∧ f.version ≠ 0 ∧ f.gen ≠ 0 ∧
+    72 ≤ f.size := by
+  simp [FileA.usable, and_assoc]
+
+theorem hdrLoads_usable (f : FileA) (h : f.usable = true) : hdrLoads f = 3 := by
+  obtain ⟨h1, h2, h3, h4, h5, h6, _⟩ := (usable_iff f).1 h
+  simp [hdrLoads, h1, h2, h3, h4, h5, h6]
+
+theorem hdrLoads_le (f : FileA) : hdrLoads f ≤ 3 := by
+  unfold hdrLoads; split <;> (try split) <;> (try split) <;> omega
+
+/-- the ten events of `new` (after the usability check) + first `write` -/
+def tailEvs : List Ev :=
+  [.newChecked, .newMapped, .storeVersion, .newVersioned, .loadGen, .storeGenOdd, .fence, .copy,
+   .storeGenEven, .done]
+
+/-- the nine wipe events -/
+def wipeEvs : List Ev :=
+  [.wipeDirs, .wipeCreated, .wipeMagic0, .wipeMagic1, .wipeSegsize, .wipeVersion, .wipeGeneration,
+   .wipeZeroed, .wipeSynced]
+
+theorem script_usable (f : FileA) (h : f.usable = true) :
+    script f = [.newStart, .hdrLoad, .hdrLoad, .hdrLoad, .newChecked, .newMapped, .storeVersion,
+      .newVersioned, .loadGen, .storeGenOdd, .fence, .copy, .storeGenEven, .done] := by
+  simp [script, h, hdrLoads_usable f h, List.replicate]
+
+theorem script_unusable (f : FileA) (h : f.usable = false) :
+    script f = .newStart :: (List.replicate (hdrLoads f) .hdrLoad ++ (wipeEvs ++ tailEvs)) := by
+  simp [script, h, wipeEvs, tailEvs]
+
+/-! ### the file left behind -/
+
+/-- the file after a complete `new; write rec` over a usable segment -/
+def finalUsable (f : FileA) (rec : List Nat) : FileA :=
+  { f with version := 1, gen := genFinish (genStart f.gen), cells := rec }
+
+/-- the file after a complete `new; write rec` over an unusable file -/
+def finalFresh (rec : List Nat) : FileA :=
+  { present := true, len := 72, magic0 := true, magic1 := true, size := 72, version := 1, gen := 2,
+    cells := rec }
+
+theorem runUntil_usable_cases (f : FileA) (rec : List Nat) (k : Nat) (h : f.usable = true) :
+    (runUntil f rec k).1 = f ∨
+    (runUntil f rec k).1 = { f with version := 1 } ∨
+    (runUntil f rec k).1 = { f with version := 1, gen := genStart f.gen } ∨
+    (runUntil f rec k).1 = { f with version := 1, gen := genStart f.gen, cells := rec } ∨
+    (runUntil f rec k).1 = finalUsable f rec := by
+  rw [runUntil_fst, script_usable f h]
+  have hk : k = 0 ∨ k = 1 ∨ k = 2 ∨ k = 3 ∨ k = 4 ∨ k = 5 ∨ k = 6 ∨ k = 7 ∨ k = 8 ∨ k = 9 ∨ k = 10 ∨
+      k = 11 ∨ k = 12 ∨ 13 ≤ k := by omega
+  rcases hk with rfl | rfl | rfl | rfl | rfl | rfl | rfl | rfl | rfl | rfl | rfl | rfl | rfl | hk
+  case inr.inr.inr.inr.inr.inr.inr.inr.inr.inr.inr.inr.inr =>
+    rw [List.take_of_length_le (by simp; omega)]
+    simp [effectBefore, finalUsable]
+  all_goals simp [effectBefore]
+
+theorem runAll_usable (f : FileA) (rec : List Nat) (h : f.usable = true) :
+    runAll f rec = finalUsable f rec := by
+  unfold runAll
+  rw [runUntil_fst, script_usable f h, List.take_of_length_le (by simp)]
+  simp [effectBefore, finalUsable]
+
+theorem runAll_unusable (f : FileA) (rec : List Nat) (h : f.usable = false) :
+    runAll f rec = finalFresh rec := by
+  unfold runAll
+  have hl := hdrLoads_le f
+  rw [runUntil_fst, script_unusable f h, List.take_of_length_le (by simp [wipeEvs, tailEvs]; omega),
+    List.foldl_cons, List.foldl_append, show effectBefore rec f .newStart = f from rfl, foldl_hdrLoad]
+  simp [wipeEvs, tailEvs, effectBefore, finalFresh, genStart, genFinish]
+
+/-- while an unusable file is being re-created (up to the crash point just before the first
+    generation store takes effect) the file left behind is the old one, or too short, or has
+    generation 0 -/
+theorem runUntil_unusable_prefix (f : FileA) (rec : List Nat) (k : Nat) (h : f.usable = false)
+    (hk : k ≤ 15 + hdrLoads f) :
+    (runUntil f rec k).1 = f ∨ (runUntil f rec k).1.len < 16 ∨ (runUntil f rec k).1.gen = 0 := by
+  rw [runUntil_fst, script_unusable f h, List.take_succ_cons, List.foldl_cons,
+    show effectBefore rec f .newStart = f from rfl, List.take_append, List.foldl_append,
+    List.take_replicate, foldl_hdrLoad, List.length_replicate]
+  generalize hj : k - hdrLoads f = j
+  have hj' : j = 0 ∨ j = 1 ∨ j = 2 ∨ j = 3 ∨ j = 4 ∨ j = 5 ∨ j = 6 ∨ j = 7 ∨ j = 8 ∨ j = 9 ∨ j = 10 ∨
+      j = 11 ∨ j = 12 ∨ j = 13 ∨ j = 14 ∨ j = 15 := by omega
+  rcases hj' with rfl | rfl | rfl | rfl | rfl | rfl | rfl | rfl | rfl | rfl | rfl | rfl | rfl | rfl |
+    rfl | rfl <;> simp [wipeEvs, tailEvs, effectBefore]
+
+/-! ### generation arithmetic -/
+
+theorem genStart_odd (g : Nat) : genStart g % 2 = 1 := by
+  unfold genStart; split <;> omega
+
+theorem genFinish_ne_zero (g : Nat) : genFinish g ≠ 0 := by
+  unfold genFinish; simp only; split <;> omega
+
+theorem genFinish_even (g : Nat) (h : g % 2 = 1) : genFinish g % 2 = 0 := by
+  unfold genFinish; simp only; split <;> omega
+
+theorem genFinish_lt (g : Nat) : genFinish g < 65536 := by
+  unfold genFinish; simp only; split <;> omega
+
+theorem genStart_lt (g : Nat) (hg : g < 65536) : genStart g < 65536 := by
+  unfold genStart; split <;> omega
+
+theorem genStart_of_odd (g : Nat) (h : g % 2 = 1) : genStart g = g := by
+  unfold genStart; split <;> omega
+
+theorem genStart_ne_zero (g : Nat) : genStart g ≠ 0 := by
+  have := genStart_odd g; omega
+
+theorem genStart_idem (g : Nat) : genStart (genStart g) = genStart g := by
+  have := genStart_odd g
+  generalize genStart g = s at *
+  unfold genStart; split <;> omega
+
+/-- a completed update changes the generation -/
+theorem genNext_ne (g : Nat) (hg : g < 65536) : genFinish (genStart g) ≠ g := by
+  unfold genFinish genStart; simp only; split <;> split <;> omega
+
+/-- finishing an update that was already started, over an odd generation -/
+theorem genFinish_ne_of_odd (g : Nat) (h : g % 2 = 1) : genFinish g ≠ g := by
+  have := genFinish_even g h; omega
+
+/-- an update completed over the in-flight (odd) generation `genStart g` never lands on `g` -/
+theorem genFinish_genStart_ne (g : Nat) (hg : g < 65536) : genFinish (genStart (genStart g)) ≠ g := by
+  rw [genStart_idem]; exact genNext_ne g hg
+
+theorem finalUsable_usable (f : FileA) (rec : List Nat) (h : f.usable = true) :
+    (finalUsable f rec).usable = true := by
+  obtain ⟨h1, h2, h3, h4, _, _, h7⟩ := (usable_iff f).1 h
+  rw [usable_iff]
+  exact ⟨h1, h2, h3, h4, by simp [finalUsable], genFinish_ne_zero _, h7⟩
+
+theorem openText_usable (f : FileA) (h : f.usable = true) : openText f = "ok" := by
+  obtain ⟨h1, h2, h3, h4, h5, h6, h7⟩ := (usable_iff f).1 h
+  have h2' : ¬ f.len < 16 := by omega
+  have h7' : ¬ f.size < 72 := by omega
+  simp [openText, h1, h2', h3, h4, h5, h6, h7']
+
+/-! ### the fields of `predict`, in terms of `runUntil` / `runAll` -/
+
+section predict
+variable (p : Prior) (k k1 k2 : Nat)
+
+/-- the file left behind by the first incarnation in `predict` -/
+abbrev pf1 : FileA := (runUntil p.file (recCells k1) k).1
+/-- the file after the restarted writer's first publication in `predict` -/
+abbrev pf2 : FileA := runAll (pf1 p k k1) (recCells k2)
+
+theorem predict_fresh :
+    (predict p k k1 k2).fresh = cellsText (({} : ReaderA).snap (pf2 p k k1 k2)).cache := rfl
+theorem predict_open1 : (predict p k k1 k2).open1 = openText (pf1 p k k1) := rfl
+theorem predict_len1 :
+    (predict p k k1 k2).len1 = if (pf1 p k k1).present then ((pf1 p k k1).len : Int) else -1 := rfl
+theorem predict_inodeSame : (predict p k k1 k2).inodeSame = p.file.present := rfl
+theorem predict_len2 : (predict p k k1 k2).len2 = ((pf2 p k k1 k2).len : Int) := rfl
+
+theorem predict_att1_unusable (hu : p.file.usable = false) : (predict p k k1 k2).att1 = "none" := by
+  show ((Option.map (fun x : ReaderA => x.snap (pf1 p k k1))
+    (if p.file.usable = true then some (({} : ReaderA).snap p.file) else none)).map
+      (fun r => cellsText r.cache)).getD "none" = "none"
+  rw [hu]; rfl
+
+theorem predict_att2_unusable (hu : p.file.usable = false) : (predict p k k1 k2).att2 = "none" := by
+  show (((Option.map (fun x : ReaderA => x.snap (pf1 p k k1))
+    (if p.file.usable = true then some (({} : ReaderA).snap p.file) else none)).map
+      (fun x : ReaderA => x.snap (pf2 p k k1 k2))).map (fun r => cellsText r.cache)).getD "none" = "none"
+  rw [hu]; rfl
+
+theorem predict_att1_usable (hu : p.file.usable = true) :
+    (predict p k k1 k2).att1 = cellsText ((({} : ReaderA).snap p.file).snap (pf1 p k k1)).cache := by
+  show ((Option.map (fun x : ReaderA => x.snap (pf1 p k k1))
+    (if p.file.usable = true then some (({} : ReaderA).snap p.file) else none)).map
+      (fun r => cellsText r.cache)).getD "none" = _
+  rw [hu]; rfl
+
+theorem predict_att2_usable (hu : p.file.usable = true) :
+    (predict p k k1 k2).att2 =
+      cellsText (((({} : ReaderA).snap p.file).snap (pf1 p k k1)).snap (pf2 p k k1 k2)).cache := by
+  show (((Option.map (fun x : ReaderA => x.snap (pf1 p k k1))
+    (if p.file.usable = true then some (({} : ReaderA).snap p.file) else none)).map
+      (fun x : ReaderA => x.snap (pf2 p k k1 k2))).map (fun r => cellsText r.cache)).getD "none" = _
+  rw [hu]; rfl
+
+end predict
+
+/-- a `Prior` whose file is usable is 72 bytes long -/
+theorem prior_usable_len (p : Prior) (hu : p.file.usable = true) : p.file.len = 72 := by
+  cases p <;> first | rfl | exact absurd hu (by decide)
 
 end ClockBound.Crash
